@@ -40,7 +40,7 @@ theorem readAll_go_c14 : ∀ (reads : List Read) (a : A) (s sQ : State) (E : Lis
     obtain ⟨E', hE', hno, _⟩ := q.nest.ext
     have : E' = E := List.append_cancel_left (hE'.symm.trans he)
     subst this
-    rw [splitRd_noRd E' hno, go_nil]; exact hn
+    rw [splitRd_none E' hno, go_nil]; exact hn
   | rd :: rest, a, s, sQ, E, 0, _, _, hlen, _, _, _, _ => by simp at hlen
   | rd :: rest, a, s, sQ, E, fuel + 1, inv, hwf, hlen, q, hQ, he, hn => by
     have hu0 : rd.uid ≠ 0 := hwf rd (by simp)
@@ -81,7 +81,7 @@ theorem readAll_go_c14 : ∀ (reads : List Read) (a : A) (s sQ : State) (E : Lis
       · -- the last frame handled in this round: the continuation's events belong to its segment
         rw [h2] at q hQ
         have hsplit : Spec.splitRd E = ([], [(rd.uid, E1 ++ (E2a ++ E2b))]) := by
-          rw [hE, List.cons_append, splitRd_rd, splitRd_noRd (E1 ++ (E2a ++ E2b))]
+          rw [hE, List.cons_append, splitRd_cons, splitRd_none (E1 ++ (E2a ++ E2b))]
           intro u hu
           rcases List.mem_append.mp hu with h | h
           · exact hno1 u h
@@ -92,7 +92,7 @@ theorem readAll_go_c14 : ∀ (reads : List Read) (a : A) (s sQ : State) (E : Lis
         rw [hsplit, go_take cfg a rd rest _ [] fuel am ham, hpT]
         exact (go_nil_ext cfg rest _ fuel).noErr (by simp) hnT
       · have hsplit : Spec.splitRd E = ([], (rd.uid, E1) :: (Spec.splitRd (E2a ++ E2b)).2) := by
-          rw [hE, List.cons_append, splitRd_rd, splitRd_append E1 _ hno1, h1]; simp
+          rw [hE, List.cons_append, splitRd_cons, splitRd_append E1 _ hno1, h1]; simp
         rw [hsplit, go_take cfg a rd rest E1 _ fuel am ham, hp1]
         exact readAll_go_c14 rest (Spec.segment cfg a rd E1) (readOne cfg s rd) sQ (E2a ++ E2b) fuel
           ⟨hx.1.sim, hx.1.top, hx.1.j, hx.1.t⟩ hwf' hlen' q hQ hE2 hn1
@@ -196,7 +196,7 @@ theorem round_c14 {a : A} {s : State} (inv : Inv cfg a s) (r : Round) (hwf : Rou
       (E1 ++ E2) (reads.length + (Spec.splitRd (E1 ++ E2)).2.length + 1) inv0 hwf' (by omega) q hE with
       ⟨hnoE, hid, hskip⟩ | ⟨hp1, hp2, _, _⟩
   · -- no frame was read in this round: the whole round is the periodic section
-    have hs2 : Spec.splitRd (E1 ++ E2) = (E1 ++ E2, []) := splitRd_noRd _ hnoE
+    have hs2 : Spec.splitRd (E1 ++ E2) = (E1 ++ E2, []) := splitRd_none _ hnoE
     rw [hevs, hs2]
     simp only [List.length_nil, Nat.add_zero]
     rw [preSt_nil]
@@ -248,7 +248,7 @@ theorem round_c14 {a : A} {s : State} (inv : Inv cfg a s) (r : Round) (hwf : Rou
         exact List.filter_eq_self.mpr (fun x hx => List.contains_iff_mem.mpr hx)
     rw [hwP]
     have heT : (ticks cfg sP).out = s.out ++ (E1 ++ E2) := by rw [← hid, hE, hq0]
-    have hsimA : Sim cfg (Spec.applyDepartures ({ preAcc a r with w := preW a r } : A) (E1 ++ E2)) (ticks cfg sP) := by
+    have hsimA : SimM cfg (Spec.applyDepartures ({ preAcc a r with w := preW a r } : A) (E1 ++ E2)) (ticks cfg sP) := by
       have hn' : Nest sP (ticks cfg sP) := ticks_nest cfg sP
       exact sim_quiet hsP tP.aopen (top_ticks ok hfuel tP).aopen hn' (ticks_J cfg jP) (E1 ++ E2) (by rw [heT, hq0])
     have ctT : CT cfg s (ticks cfg sP) :=
@@ -267,7 +267,7 @@ theorem round_c14 {a : A} {s : State} (inv : Inv cfg a s) (r : Round) (hwf : Rou
     have hdep : ErrExt ["C07"] Xc (checkDepartures cfg Xc none (E1 ++ E2)) := by
       refine checkDepartures_c14 cfg Xc none (E1 ++ E2)
         (dep_c14_end hsimA ctT.top.aopen (E1 ++ E2) ?_ ?_ ?_ (fun o d U hU => ?_))
-      · rw [applyDepartures_eq, applyDepartures_eq]
+      · rw [applyDepartures_map, applyDepartures_map]
         show List.map _ Xc.mods = List.map _ (preAcc a r).mods
         rw [hXe.mods]
       · rw [(applyDepartures_core _ (E1 ++ E2)).2.2.1, hXe.w]
